@@ -118,7 +118,10 @@ impl<W, R, T> CompilationScope<'_, W, R, T> {
         };
         let defaults = param_static_defaults
             .into_iter()
-            .filter_map(|s| s.map(|s| self.compile(s)))
+            .zip(spec.params.iter().zip(param_names.iter()))
+            .filter_map(|(s, (param, name))| {
+                s.map(|s| self.compile_default(s, &param.type_, *name))
+            })
             .collect::<Result<_, _>>()
             .map_err(|e| e.trace(input))?;
         let param_len = param_names.len();
@@ -804,7 +807,10 @@ impl<W, R, T> CompilationScope<'_, W, R, T> {
                 let param_len = param_specs.len();
                 let defaults = param_static_defaults
                     .into_iter()
-                    .filter_map(|s| s.map(|s| self.compile(s)))
+                    .zip(param_specs.iter().zip(param_names.iter()))
+                    .filter_map(|(s, (param, name))| {
+                        s.map(|s| self.compile_default(s, &param.type_, *name))
+                    })
                     .collect::<Result<_, _>>()
                     .map_err(|e| e.trace(&input))?;
                 let mut subscope = CompilationScope::from_parent_lambda(
